@@ -176,8 +176,8 @@ func runC15(c *core.Ctx) {
 		o.Require(len(ce) == 1, "expected one checkEI call")
 		// one white-space byte after ID
 		src := c.Prog.Src(fn.Decl.Body)
-		o.Require(strings.Contains(src, "b,_:=s.Peek()ifclass[b]==space{s.ReadByte()}"), "exactly one white-space byte must be skipped after ID")
-		o.Require(strings.Contains(src, `s.SkipString("EI")`) && strings.Contains(src, "iferr!=io.EOF&&class[nextByte]==regular{returnOperator{},parseError{}}"), "EI must be followed by a non-regular byte or the end of input")
+		o.Shape(strings.Contains(src, "b,_:=s.Peek()ifclass[b]==space{s.ReadByte()}"), "exactly one white-space byte must be skipped after ID")
+		o.Shape(strings.Contains(src, `s.SkipString("EI")`) && strings.Contains(src, "iferr!=io.EOF&&class[nextByte]==regular{returnOperator{},parseError{}}"), "EI must be followed by a non-regular byte or the end of input")
 		_ = info
 		ck := c.Prog.Func(cp, "(*scanner).checkEI")
 		cs := c.Prog.Src(ck.Decl.Body)
